@@ -10,42 +10,43 @@ Variable apply_opt : nat -> T -> list E -> option T * T.
 Notation editor := (editor T E).
 Notation call := (call E).
 
-(* position of the first failing call and whether its error is ignorable *)
+(* position of the first call whose error reaches the statement iterator, and whether it is ignorable *)
 Fixpoint first_bad (cs : list call) : option bool :=
   match cs with
   | [] => None
-  | CGood _ :: t => first_bad t
   | CBad ig :: _ => Some ig
+  | _ :: t => first_bad t
   end.
 
+Lemma flush_initial (ed : editor) :
+  initial _ _ (flush T E apply_opt ed) = initial _ _ ed /\ discard _ _ (flush T E apply_opt ed) = discard _ _ ed.
+Proof. unfold flush. destruct (apply_opt 0 (edited T E ed) (acc T E ed)) as [[t|] t']; cbn; auto. Qed.
+
 Lemma feed_initial (cs : list call) : forall ed : editor,
-  initial _ _ (fst (feed T E ed cs)) = initial _ _ ed /\ discard _ _ (fst (feed T E ed cs)) = discard _ _ ed
-  /\ published _ _ (fst (feed T E ed cs)) = published _ _ ed /\ edited _ _ (fst (feed T E ed cs)) = edited _ _ ed.
+  initial _ _ (fst (feed T E apply_opt ed cs)) = initial _ _ ed /\
+  discard _ _ (fst (feed T E apply_opt ed cs)) = discard _ _ ed.
 Proof.
   induction cs as [|c t IH]; intros ed; cbn; auto.
-  destruct c as [e|ig]; cbn; auto. destruct (IH (accumulate T E ed e)) as (H1 & H2 & H3 & H4). cbn in *. auto.
+  destruct c as [e|ig| |]; cbn; auto.
+  - destruct (IH (accumulate T E ed e)) as (H1 & H2). cbn in *. auto.
+  - destruct (IH (flush T E apply_opt ed)) as (H1 & H2). destruct (flush_initial ed) as (F1 & F2).
+    rewrite H1, H2, F1, F2. auto.
 Qed.
 
-Lemma feed_err (cs : list call) : forall ed : editor, snd (feed T E ed cs) = first_bad cs.
+Lemma feed_err (cs : list call) : forall ed : editor, snd (feed T E apply_opt ed cs) = first_bad cs.
 Proof. induction cs as [|c t IH]; intros ed; cbn; auto. destruct c; cbn; auto. Qed.
 
-Lemma feed_good (cs : list call) : forall ed : editor,
-  all_good E cs = true -> acc _ _ (fst (feed T E ed cs)) = acc _ _ ed ++ good_edits E cs.
-Proof.
-  induction cs as [|c t IH]; intros ed H; cbn in *; [rewrite app_nil_r; reflexivity|].
-  destruct c as [e|ig]; [|discriminate]. rewrite IH by exact H. cbn. rewrite <- app_assoc. reflexivity.
-Qed.
-
 Lemma first_bad_all_good cs : all_good E cs = true -> first_bad cs = None.
-Proof. induction cs as [|c t IH]; cbn; auto. destruct c; [exact IH|discriminate]. Qed.
+Proof. induction cs as [|c t IH]; cbn; auto. destruct c; cbn; try exact IH. discriminate. Qed.
 
-(* a statement whose first failing row-edit call — at ANY position — returns a non-ignorable error reports the
-   error and leaves the table (rows and indexes: all of T) exactly as before, whatever ApplyEdits would do *)
+(* a statement whose first failing row-edit call — at ANY position, after any mix of accumulated edits, handled
+   errors and mid-statement IndexedAccess applies — returns a non-ignorable error reports the error and leaves the
+   table (rows and indexes: all of T) exactly as before, whatever ApplyEdits does *)
 Theorem stmt_atomic (t : T) (cs : list call) :
   first_bad cs = Some false -> run_stmt T E apply_opt t cs = (RErr, t).
 Proof.
   intros H. unfold run_stmt.
-  destruct (feed T E (statement_begin T E (open_editor T E t)) cs) as [ed1 err] eqn:F.
+  destruct (feed T E apply_opt (statement_begin T E (open_editor T E t)) cs) as [ed1 err] eqn:F.
   pose proof (feed_err cs (statement_begin T E (open_editor T E t))) as Herr. rewrite F in Herr. cbn in Herr.
   rewrite H in Herr. subst err.
   pose proof (feed_initial cs (statement_begin T E (open_editor T E t))) as (H1 & _). rewrite F in H1. cbn in H1.
@@ -53,7 +54,7 @@ Proof.
 Qed.
 
 Lemma first_bad_app pre post ig : all_good E pre = true -> first_bad (pre ++ CBad ig :: post) = Some ig.
-Proof. induction pre as [|c t IH]; cbn; auto. destruct c; [exact IH|discriminate]. Qed.
+Proof. induction pre as [|c t IH]; cbn; auto. destruct c; cbn; try exact IH. discriminate. Qed.
 
 Theorem stmt_atomic_at_any_position (t : T) (pre post : list call) :
   all_good E pre = true -> run_stmt T E apply_opt t (pre ++ CBad false :: post) = (RErr, t).
@@ -69,39 +70,40 @@ Proof.
   replace (S (S k) - 1) with (S k) by lia. replace (S k - 1) with k by lia. reflexivity.
 Qed.
 
-Lemma all_good_firstn n : forall cs : list call, all_good E cs = true -> all_good E (firstn n cs) = true.
-Proof.
-  induction n as [|n IH]; intros cs H; [reflexivity|]. destruct cs as [|c t]; [reflexivity|].
-  cbn in *. apply andb_prop in H. destruct H as [H1 H2]. rewrite H1. cbn. apply IH. exact H2.
-Qed.
-
 (* the injected storage error at the k-th row-edit call, for every k within the statement *)
 Theorem stmt_atomic_injected (t : T) (cs : list call) (k : nat) :
   1 <= k <= length cs -> all_good E (firstn (k - 1) cs) = true ->
   run_stmt T E apply_opt t (inject E k cs) = (RErr, t).
 Proof. intros H G. rewrite inject_split by exact H. apply stmt_atomic_at_any_position. exact G. Qed.
 
-(* the target table of a statement with a BEFORE INSERT trigger is restored as well ... *)
+(* ---- triggers ---- *)
 Variable A : Type.
 Variable audit_edit : A -> E.
 
-Fixpoint first_bad_trig (cs : list (A * call)) : option bool :=
+Fixpoint first_bad_trig (cs : list (option A * call)) : option bool :=
   match cs with
   | [] => None
-  | (_, CGood _) :: t => first_bad_trig t
-  | (_, CBad ig) :: _ => Some ig
+  | (None, _) :: _ => Some false
+  | (Some _, CBad ig) :: _ => Some ig
+  | (Some _, _) :: t => first_bad_trig t
   end.
 
-Lemma feed_trig_initial (cs : list (A * call)) : forall (ed : editor) other,
+Lemma feed_trig_initial (cs : list (option A * call)) : forall (ed : editor) other,
   initial _ _ (fst (fst (feed_trig T E apply_opt A audit_edit ed other cs))) = initial _ _ ed /\
   snd (feed_trig T E apply_opt A audit_edit ed other cs) = first_bad_trig cs.
 Proof.
-  induction cs as [|[a c] t IH]; intros ed other; cbn; auto.
-  destruct c as [e|ig]; cbn; auto. destruct (IH (accumulate T E ed e) (snd (run_stmt T E apply_opt other [CGood (audit_edit a)]))) as (H1 & H2).
-  cbn in *. auto.
+  induction cs as [|[[a|] c] t IH]; intros ed other; [cbn; auto | | cbn; auto].
+  destruct c as [e|ig| |]; cbn [feed_trig first_bad_trig].
+  - destruct (IH (accumulate T E ed e) (snd (run_stmt T E apply_opt other [CGood (audit_edit a)]))) as (H1 & H2).
+    split; [rewrite H1; reflexivity | exact H2].
+  - cbn. auto.
+  - apply IH.
+  - destruct (IH (flush T E apply_opt ed) (snd (run_stmt T E apply_opt other [CGood (audit_edit a)]))) as (H1 & H2).
+    destruct (flush_initial ed) as (F1 & _). split; [rewrite H1; exact F1 | exact H2].
 Qed.
 
-Theorem stmt_trig_target_atomic (t other : T) (cs : list (A * call)) :
+(* whether a row fails in the editor or the trigger body itself fails (SIGNAL), the TARGET table is restored *)
+Theorem stmt_trig_target_atomic (t other : T) (cs : list (option A * call)) :
   first_bad_trig cs = Some false ->
   exists other', run_stmt_trig T E apply_opt A audit_edit t other cs = (RErr, t, other').
 Proof.
@@ -114,25 +116,132 @@ Qed.
 
 End Proofs.
 
-(* ---- with a total ApplyEdits ---- *)
+(* ---- with a total ApplyEdits that composes ---- *)
 Section Total.
 Variable T E : Type.
 Variable apply : T -> list E -> T.
+Hypothesis apply_nil : forall x, apply x [] = x.
+Hypothesis apply_app : forall x a b, apply x (a ++ b) = apply (apply x a) b.
+
 Definition total_apply (_ : nat) (t : T) (es : list E) : option T * T := (Some (apply t es), apply t es).
 
-(* a statement all of whose row-edit calls succeed reports success and publishes ApplyEdits of ALL its edits *)
-Theorem stmt_all_or_nothing (t : T) (cs : list (call E)) :
-  all_good E cs = true -> (forall x, apply x [] = x) ->
-  run_stmt T E total_apply t cs = (ROk, apply t (good_edits E cs)).
+Notation editor := (editor T E).
+Definition virtual (ed : editor) : T := apply (edited _ _ ed) (acc _ _ ed).
+
+Lemma feed_virtual (cs : list (call E)) : forall ed : editor,
+  all_good E cs = true ->
+  virtual (fst (feed T E total_apply ed cs)) = apply (virtual ed) (good_edits E cs) /\
+  discard _ _ (fst (feed T E total_apply ed cs)) = discard _ _ ed.
 Proof.
-  intros G AN. unfold run_stmt.
-  destruct (feed T E (statement_begin T E (open_editor T E t)) cs) as [ed1 err] eqn:F.
-  pose proof (feed_err T E cs (statement_begin T E (open_editor T E t))) as Herr. rewrite F in Herr. cbn in Herr.
+  induction cs as [|c t IH]; intros ed G; [cbn; rewrite apply_nil; auto|].
+  destruct c as [e|ig| |]; cbn in G; try discriminate.
+  - destruct (IH (accumulate T E ed e) G) as (H1 & H2). cbn [feed]. rewrite H1, H2. split; [|reflexivity].
+    change (good_edits E (CGood e :: t)) with ([e] ++ good_edits E t).
+    unfold virtual. cbn [accumulate edited acc]. rewrite !apply_app. reflexivity.
+  - apply IH. exact G.
+  - destruct (IH (flush T E total_apply ed) G) as (H1 & H2). cbn [feed]. rewrite H1, H2. split; [|reflexivity].
+    change (good_edits E (CFlush :: t)) with (good_edits E t).
+    unfold virtual, flush, total_apply. cbn. rewrite apply_nil. reflexivity.
+Qed.
+
+(* a statement none of whose calls fails reports success and publishes ApplyEdits of ALL its edits — also when
+   parts of them were applied in the middle of the statement *)
+Theorem stmt_all_or_nothing (t : T) (cs : list (call E)) :
+  all_good E cs = true -> run_stmt T E total_apply t cs = (ROk, apply t (good_edits E cs)).
+Proof.
+  intros G. unfold run_stmt.
+  destruct (feed T E total_apply (statement_begin T E (open_editor T E t)) cs) as [ed1 err] eqn:F.
+  pose proof (feed_err T E total_apply cs (statement_begin T E (open_editor T E t))) as Herr. rewrite F in Herr. cbn in Herr.
   rewrite (first_bad_all_good _ cs G) in Herr. subst err.
-  pose proof (feed_initial T E cs (statement_begin T E (open_editor T E t))) as (_ & H2 & _ & H4).
-  pose proof (feed_good T E cs (statement_begin T E (open_editor T E t)) G) as H5.
-  rewrite F in H2, H4, H5. cbn in H2, H4, H5.
-  unfold statement_complete, close_editor, total_apply. cbn. rewrite H2. cbn. rewrite H4, H5. rewrite AN. reflexivity.
+  destruct (feed_virtual cs (statement_begin T E (open_editor T E t)) G) as (H1 & H2).
+  rewrite F in H1, H2. cbn [fst] in H1, H2. unfold virtual in H1. cbn in H1, H2.
+  unfold statement_complete, close_editor, total_apply. cbn. rewrite H2. cbn. rewrite H1, !apply_nil. reflexivity.
+Qed.
+
+(* ---- the checkpointing iterator (INSERT IGNORE) ---- *)
+Definition no_hard (cs : list (call E)) : bool :=
+  forallb (fun c => match c with CBad false => false | _ => true end) cs.
+
+Definition clean (ed : editor) : Prop :=
+  acc _ _ ed = [] /\ discard _ _ ed = false /\ published _ _ ed = edited _ _ ed.
+
+Lemma feed_ckpt_clean (cs : list (call E)) : forall (ed : editor) n,
+  clean ed -> no_hard cs = true ->
+  exists ed' n', feed_ckpt T E total_apply ed n cs = (ed', None, n') /\ clean ed' /\
+              edited _ _ ed' = apply (edited _ _ ed) (good_edits E cs).
+Proof.
+  induction cs as [|c t IH]; intros ed n (C1 & C2 & C3) N; cbn in *.
+  - exists ed, n. rewrite apply_nil. repeat split; auto.
+  - destruct c as [e|[|]| |]; cbn in N; try discriminate.
+    + destruct (IH (statement_complete_at T E total_apply n (accumulate T E (statement_begin T E ed) e)) (S n)) as (ed' & n' & F & C & Ed).
+      { unfold statement_complete_at, total_apply. cbn. rewrite C1, C2. repeat split. }
+      { exact N. }
+      exists ed', n'. split; [exact F|]. split; [exact C|]. rewrite Ed. unfold statement_complete_at, total_apply. cbn.
+      rewrite C1. cbn. rewrite <- apply_app. reflexivity.
+    + destruct (IH (discard_changes T E (statement_begin T E ed) true) n) as (ed' & n' & F & C & Ed).
+      { cbn. rewrite C2, C3. repeat split. }
+      { exact N. }
+      exists ed', n'. split; [exact F|]. split; [exact C|]. rewrite Ed. reflexivity.
+    + destruct (IH (statement_complete_at T E total_apply n (statement_begin T E ed)) (S n)) as (ed' & n' & F & C & Ed).
+      { unfold statement_complete_at, total_apply. cbn. rewrite C1, C2. repeat split. }
+      { exact N. }
+      exists ed', n'. split; [exact F|]. split; [exact C|]. rewrite Ed. unfold statement_complete_at, total_apply. cbn.
+      rewrite C1, apply_nil. reflexivity.
+    + destruct (IH (statement_complete_at T E total_apply n (flush T E total_apply (statement_begin T E ed))) (S n)) as (ed' & n' & F & C & Ed).
+      { unfold statement_complete_at, flush, total_apply. cbn. rewrite C2. repeat split. }
+      { exact N. }
+      exists ed', n'. split; [exact F|]. split; [exact C|]. rewrite Ed. unfold statement_complete_at, flush, total_apply. cbn.
+      rewrite C1, !apply_nil. reflexivity.
+Qed.
+
+(* INSERT IGNORE with no hard error applies every accepted row (ignorable errors only skip their row) *)
+Theorem ckpt_success (t : T) (cs : list (call E)) :
+  no_hard cs = true -> run_stmt_ckpt T E total_apply t cs = (ROk, apply t (good_edits E cs)).
+Proof.
+  intros N. unfold run_stmt_ckpt.
+  destruct (feed_ckpt_clean cs (open_editor T E t) 1) as (ed' & n' & F & (C1 & C2 & C3) & Ed); [repeat split | exact N |].
+  rewrite F. unfold close_editor_at, statement_complete_at, statement_begin, total_apply. cbn. rewrite C2, C1. cbn.
+  rewrite !apply_nil, Ed. reflexivity.
+Qed.
+
+Lemma feed_ckpt_hard (pre post : list (call E)) : forall (ed : editor) n,
+  clean ed -> no_hard pre = true ->
+  exists ed' n', feed_ckpt T E total_apply ed n (pre ++ CBad false :: post) = (ed', Some false, n') /\
+              discard _ _ ed' = true /\ initial _ _ ed' = apply (edited _ _ ed) (good_edits E pre).
+Proof.
+  induction pre as [|c t IH]; intros ed n (C1 & C2 & C3) N; cbn in *.
+  - eexists. eexists. split; [reflexivity|]. cbn. rewrite apply_nil. auto.
+  - destruct c as [e|[|]| |]; cbn in N; try discriminate.
+    + destruct (IH (statement_complete_at T E total_apply n (accumulate T E (statement_begin T E ed) e)) (S n)) as (ed' & n' & F & D & I).
+      { unfold statement_complete_at, total_apply. cbn. rewrite C1, C2. repeat split. }
+      { exact N. }
+      exists ed', n'. split; [exact F|]. split; [exact D|]. rewrite I. unfold statement_complete_at, total_apply. cbn.
+      rewrite C1. cbn. rewrite <- apply_app. reflexivity.
+    + destruct (IH (discard_changes T E (statement_begin T E ed) true) n) as (ed' & n' & F & D & I).
+      { cbn. rewrite C2, C3. repeat split. }
+      { exact N. }
+      exists ed', n'. split; [exact F|]. split; [exact D|]. rewrite I. reflexivity.
+    + destruct (IH (statement_complete_at T E total_apply n (statement_begin T E ed)) (S n)) as (ed' & n' & F & D & I).
+      { unfold statement_complete_at, total_apply. cbn. rewrite C1, C2. repeat split. }
+      { exact N. }
+      exists ed', n'. split; [exact F|]. split; [exact D|]. rewrite I. unfold statement_complete_at, total_apply. cbn.
+      rewrite C1, apply_nil. reflexivity.
+    + destruct (IH (statement_complete_at T E total_apply n (flush T E total_apply (statement_begin T E ed))) (S n)) as (ed' & n' & F & D & I).
+      { unfold statement_complete_at, flush, total_apply. cbn. rewrite C2. repeat split. }
+      { exact N. }
+      exists ed', n'. split; [exact F|]. split; [exact D|]. rewrite I. unfold statement_complete_at, flush, total_apply. cbn.
+      rewrite C1, !apply_nil. reflexivity.
+Qed.
+
+(* ... but a hard error (a storage error) at row k reports the error and KEEPS the rows accepted before it: every
+   row was its own statement *)
+Theorem ckpt_hard_error_keeps_earlier_rows (t : T) (pre post : list (call E)) :
+  no_hard pre = true ->
+  run_stmt_ckpt T E total_apply t (pre ++ CBad false :: post) = (RErr, apply t (good_edits E pre)).
+Proof.
+  intros N. unfold run_stmt_ckpt.
+  destruct (feed_ckpt_hard pre post (open_editor T E t) 1) as (ed' & n' & F & D & I); [repeat split | exact N |].
+  rewrite F. unfold close_editor_at. rewrite D. cbn. rewrite I. reflexivity.
 Qed.
 End Total.
 
@@ -142,7 +251,18 @@ Definition app_apply (_ : nat) (t : list nat) (es : list nat) : option (list nat
 (* the audit rows written by the trigger for rows 1..k survive the failure of row k *)
 Lemma trigger_effects_survive :
   run_stmt_trig (list nat) nat app_apply nat (fun a => a) [] []
-    [(101, CGood 1); (102, CGood 2); (103, CBad false)] = (RErr, [], [101; 102; 103]).
+    [(Some 101, CGood 1); (Some 102, CGood 2); (Some 103, CBad false)] = (RErr, [], [101; 102; 103]).
+Proof. reflexivity. Qed.
+
+(* the same when the trigger body itself signals an error at row 3 *)
+Lemma trigger_signal_effects_survive :
+  run_stmt_trig (list nat) nat app_apply nat (fun a => a) [] []
+    [(Some 101, CGood 1); (Some 102, CGood 2); (None, CGood 3)] = (RErr, [], [101; 102]).
+Proof. reflexivity. Qed.
+
+(* INSERT IGNORE: rows 1 and 3 accepted, row 2 skipped (ignorable), hard error at row 4: rows 1 and 3 stay *)
+Lemma ckpt_keeps_rows_witness :
+  run_stmt_ckpt (list nat) nat app_apply [7] [CGood 1; CBad true; CGood 3; CBad false; CGood 5] = (RErr, [7; 1; 3]).
 Proof. reflexivity. Qed.
 
 (* an ApplyEdits that fails after its first edit: the statement reports an error but the table keeps that edit *)
@@ -172,4 +292,11 @@ Definition first_fault_apply (n : nat) (t : list nat) (es : list nat) : option (
 
 Lemma apply_error_in_statement_complete_is_swallowed :
   run_stmt (list nat) nat first_fault_apply [7] [CGood 1; CGood 2] = (ROk, [7; 1; 2]).
+Proof. reflexivity. Qed.
+
+(* INSERT IGNORE with a one-shot storage error in the ApplyEdits of row 1's StatementComplete: the error is swallowed
+   (nil), row 1 stays pending in the accumulator, row 2 is an ignorable duplicate whose DiscardChanges clears the
+   accumulator: the statement SUCCEEDS and row 1 is lost *)
+Lemma swallowed_apply_error_loses_row :
+  run_stmt_ckpt (list nat) nat first_fault_apply [7] [CGood 1; CBad true; CGood 3] = (ROk, [7; 3]).
 Proof. reflexivity. Qed.
